@@ -31,6 +31,7 @@ static inline vec_off vec_off_new(void) { vec_off v; v.n = 0; return v; }
 static inline void vec_off_push_back(vec_off *v, const unsigned long *x) { M_ASSERT(v->n < VMAXO, "ancestor stack fits"); if (v->n < VMAXO) v->d[v->n++] = *x; }
 #define VEC_OFF_BACK(v) (M_ASSERT((v)->n > 0, "back() of a non-empty vector"), &(v)->d[(v)->n > 0 ? (v)->n - 1 : 0])
 static inline void vec_off_pop_back(vec_off *v) { M_ASSERT(v->n > 0, "pop_back of a non-empty vector"); if (v->n > 0) v->n--; }
+#define VEC_OFF_SIZE(v) ((unsigned long)(v)->n)
 #define VEC_OFF_EMPTY(v) ((_Bool)((v)->n == 0))
 static inline _Bool vec_off_eq(const vec_off *a, const vec_off *b)
 { if (a->n != b->n) return 0; for (unsigned i = 0; i < VMAXO; ++i) if (i < a->n && a->d[i] != b->d[i]) return 0; return 1; }
